@@ -14,7 +14,8 @@
 (***************************************************************************)
 EXTENDS Integers, Sequences, FiniteSets, TLC, Json
 
-CONSTANTS NSources, NNamespaces, MaxLen, FileBacked
+CONSTANTS NSources, NNamespaces, MaxLen, FileBacked,
+          Bad          \* index of a source that does not parse (0: none): cooking it raises ParseError
 
 VARIABLES src, defs, cooked, blocksOf, disk, hist, outs
 
@@ -32,10 +33,12 @@ Room == Len(hist) < MaxLen + 1
 Current == IF FileBacked THEN disk ELSE src
 
 \* __call__: cooks first when there is no _v_cooked marker, then renders the compiled blocks
+\* (a source that does not parse leaves the object uncompiled: every rendering raises ParseError again)
 Render(i) ==
     /\ Room
     /\ LET b == IF cooked THEN blocksOf ELSE Current IN
-         /\ blocksOf' = b /\ cooked' = TRUE
+         /\ IF b = Bad /\ ~cooked THEN cooked' = FALSE /\ blocksOf' = 0
+            ELSE blocksOf' = b /\ cooked' = TRUE
          /\ outs' = Append(outs, <<b, defs, i>>)
     /\ hist' = Append(hist, <<"render", i>>)
     /\ UNCHANGED <<src, defs, disk>>
@@ -47,15 +50,17 @@ DeepCopy == /\ Room /\ cooked' = FALSE /\ blocksOf' = 0 /\ hist' = Append(hist, 
             /\ UNCHANGED <<src, defs, disk, outs>>
 
 \* munge(source): new text, recompiled at once
+\* (a text that does not parse is kept -- the call raises ParseError -- and the object is left uncompiled)
 Munge(j) == /\ Room /\ ~FileBacked
-            /\ src' = j /\ blocksOf' = j /\ cooked' = TRUE
+            /\ src' = j /\ IF j = Bad THEN blocksOf' = 0 /\ cooked' = FALSE ELSE blocksOf' = j /\ cooked' = TRUE
             /\ hist' = Append(hist, <<"munge", j>>) /\ UNCHANGED <<defs, disk, outs>>
 \* munge(None, mapping): defaults replaced (an empty mapping clears them), recompiled
 MungeDefs(d) == /\ Room /\ ~FileBacked
-                /\ defs' = d /\ blocksOf' = src /\ cooked' = TRUE
+                /\ defs' = d /\ IF src = Bad THEN blocksOf' = 0 /\ cooked' = FALSE ELSE blocksOf' = src /\ cooked' = TRUE
                 /\ hist' = Append(hist, <<"defaults", IF d = "empty" THEN 0 ELSE 1>>)
                 /\ UNCHANGED <<src, disk, outs>>
-Cook == /\ Room /\ blocksOf' = Current /\ cooked' = TRUE /\ hist' = Append(hist, <<"cook", 0>>)
+Cook == /\ Room /\ IF Current = Bad THEN blocksOf' = 0 /\ cooked' = FALSE ELSE blocksOf' = Current /\ cooked' = TRUE
+        /\ hist' = Append(hist, <<"cook", 0>>)
         /\ UNCHANGED <<src, defs, disk, outs>>
 \* the file changes on disk; the object does not notice until it is compiled again
 EditFile == /\ Room /\ FileBacked /\ disk' = (disk % NSources) + 1
